@@ -18,7 +18,7 @@ def jobs(tier):
     smax, vmax, stmax = (8, 9, 3) if q else (12, 13, 4)
     out = []
     # core objects, everything symbolic
-    for kinds in ("s", "w", "ss", "sw", "ws", "sq", "wq", "ssq", "sss"):
+    for kinds in (("s", "w", "ss", "sw", "ws", "sq", "wq") if q else ("s", "w", "ss", "sw", "ws", "sq", "wq", "ssq", "sss")):
         n = sum(1 for k in kinds if k == "s")
         for lazy in (False, True):
             if lazy and n == 0:
@@ -26,7 +26,7 @@ def jobs(tier):
             if n == 1:
                 sm, vm, st = smax, vmax, stmax
             elif n == 2:
-                sm, vm, st = (4, 5, 2) if q else (6, 7, 3)
+                sm, vm, st = (4, 4, 2) if q else (6, 7, 3)
             else:
                 sm, vm, st = (3, 3, 1) if q else (4, 5, 2)
             params = [("size", "int"), ("idx", "int")]
